@@ -424,6 +424,14 @@ func (r *Run) execLin(ci, oi int, op *Op) {
 			fmt.Fprintf(&b, "<Part><PartNumber>%d</PartNumber><ETag>%s</ETag></Part>", p.N, et)
 		}
 		b.WriteString("</CompleteMultipartUpload>")
+		// the assembled object becomes readable by others before this client
+		// sees the response: register its bytes up front
+		var whole []byte
+		for _, e := range list {
+			whole = append(whole, h.bodies[strings.SplitN(e, ":", 2)[1]]...)
+		}
+		sum := md5hex(whole)
+		h.bodies[sum] = whole
 		call := h.tick()
 		resp := r.send(&simnet.Request{Method: "POST", Target: target(u.Bucket, u.Key, url.Values{"uploadId": {u.ID}}),
 			Headers: [][2]string{{"Content-Length", strconv.Itoa(b.Len())}}, Body: b.Bytes()}, op.Faults, r.frag(op))
@@ -434,12 +442,6 @@ func (r *Run) execLin(ci, oi int, op *Op) {
 		}
 		h.add("u:"+u.ID, ci, call, ret, mpuIn{Kind: "complete", List: list}, mpuOut{resp.OK()}, fmt.Sprintf("complete %v ok=%v", list, resp.OK()))
 		if resp.OK() {
-			var whole []byte
-			for _, e := range list {
-				whole = append(whole, h.bodies[strings.SplitN(e, ":", 2)[1]]...)
-			}
-			sum := md5hex(whole)
-			h.bodies[sum] = whole
 			h.add("k:"+u.Bucket+"/"+u.Key, ci, call, ret, regIn{"w", sum}, regOut{}, "complete-write "+short(sum))
 			r.probe("complete succeeded in a concurrent run")
 			r.stats.Mutations++
